@@ -14,6 +14,13 @@ TOKENIZERS = {"tokenize", "_tokenize_deterministic", "_tokenize", "base.tokenize
 _PROJECTION_METHODS = {"get", "pop", "setdefault", "index", "count", "startswith", "endswith", "split", "rsplit", "partition", "join", "find", "is_integer", "issubset", "isdisjoint"}
 
 
+_PROJECTION_FUNCS = {
+    "apply_infer_dtype", "funcname", "len", "type", "isinstance", "hasattr", "callable", "typename", "key_split",
+    "np.result_type", "result_type", "np.promote_types", "compute_meta", "meta_from_array", "np.ndim", "ndim", "np.shape",
+    "is_arraylike", "is_scalar_for_elemwise", "is_dask_collection", "np.isscalar", "bool", "any", "all",
+}
+
+
 def _names_whole(expr):
     """Names whose *whole value* is part of expr: does not look through attribute access
     (x.shape, x.get(...)), subscripts, comparisons or comprehension filters -- those pass on
@@ -37,6 +44,10 @@ def _names_whole(expr):
                 stack.append(n.func.value)
             continue
         if isinstance(n, (ast.Subscript, ast.Compare)):
+            continue
+        if isinstance(n, ast.Call) and call_name(n) in _PROJECTION_FUNCS:
+            # these hand on a summary of their arguments, not the arguments themselves:
+            # apply_infer_dtype(op, ...) is a dtype -- it does not identify op
             continue
         if isinstance(n, (ast.ListComp, ast.SetComp, ast.GeneratorExp, ast.DictComp)):
             elts = [n.key, n.value] if isinstance(n, ast.DictComp) else [n.elt]
